@@ -174,7 +174,7 @@ def _build_table(keys):
         _A('AnnotationPropertyTypeCodeSequence', '1', ag),
         _A('NumberOfAnnotations', '1', ag),
         _A('AnnotationAppliesToAllOpticalPaths', '1', ag),
-        _A('AnnotationAppliesToAllZPlanes', '1', ag),
+        _A('AnnotationAppliesToAllZPlanes', '1C', ag),
         _A('GraphicType', '1', ag),
         _A('PointCoordinatesData', '1C', ag),
         _A('DoublePointCoordinatesData', '1C', ag),
